@@ -99,7 +99,13 @@ def crossratio(
         raise TypeError(f"Unsupported combination of types: a: {type(a)}, b: {type(b)}, c: {type(c)}, d: {type(d)}")
 
     if a.dim > 2 or (from_point is None and a.dim == 2):
-        if not np.all(is_collinear(a, b, c, d)):
+        if a.dim > 2:
+            # is_collinear only tests coplanarity in 3D
+            l = join(a, b)
+            collinear = l.contains(c) & l.contains(d)
+        else:
+            collinear = is_collinear(a, b, c, d)
+        if not np.all(collinear):
             raise NotCollinear("The points are not collinear: " + str([a, b, c, d]))
 
         basis = np.stack([a.array, b.array], axis=-2)
